@@ -1,6 +1,6 @@
 (* C01 -- lossless CST.  The grammar is the one regenerated from /repo (Gen/GenGrammar.v, one entry
    per parser function); the theorems are about the PEG interpreter of Nom/Peg.v. *)
-From SV Require Import Peg PegFacts GenGrammar.
+From SV Require Import Peg PegFacts NonNull LeafPos GenGrammar.
 Local Open Scope nat_scope.
 
 (* Every one of the ~1300 parser functions lists, in its construction, each consuming
@@ -35,3 +35,25 @@ Theorem C01_start_symbols :
   Nat.ltb start_library_text (length grammar) && Nat.ltb start_library_text_incomplete (length grammar) &&
   Nat.ltb start_preprocessor_text (length grammar) = true.
 Proof. vm_compute. reflexivity. Qed.
+
+(* Leaves are non-empty.  Every into_locate(...) of the grammar stands on an expression that the
+   non-nullability analysis (certificate re-checked in Coq, C15_cert_ok) shows to consume when it
+   succeeds -- decided by computation on the regenerated grammar -- hence every leaf of every forest
+   returned from the empty memo has positive length, memo hits included, provided the span primitives
+   and hand lexers consume at least one byte when they succeed (the oracle hypothesis of C15). *)
+Theorem C01_leaves_made_of_consuming_spans : leaves_nn_grammar grammar all_prims nonnull_cert = true.
+Proof. vm_compute. reflexivity. Qed.
+
+Theorem C01_leaves_nonempty : forall (A : Type) prim act cond dirflag (inp : list N),
+  (forall i a p n, In i all_prims -> prim i a p = Some n -> 1 <= n) ->
+  forall fuel n cap (a : A) fo q st',
+  n < length grammar ->
+  run A prim act cond dirflag inp grammar fuel (FCall n) 0 [] (mkPst A [] [] cap a) = (Ok fo q, st') ->
+  Forall (fun l => (1 <= l_len l)%N) (flat_map leaves fo).
+Proof.
+  intros A prim act cond dirflag inp Hpos fuel n cap a fo q st' Hn Hrun.
+  assert (CO : cert_ok grammar all_prims nonnull_cert = true) by (vm_compute; reflexivity).
+  pose proof (run_leaf_pos A prim act cond dirflag inp grammar all_prims nonnull_cert CO Hpos
+                C01_leaves_made_of_consuming_spans fuel (FCall n) 0 [] (mkPst A [] [] cap a) eq_refl) as H.
+  rewrite Hrun in H. destruct H as (_ & _ & H); [intros ? ? ? ? ? []|intros ? ? ? ? ? []|exact H].
+Qed.
